@@ -8,7 +8,7 @@ open Cppcheck.Wire Cppcheck.ValueTypeConv Cppcheck.ConvSpec
      bin  <platform> <c|cpp> <t1> <t2>   →  var=<vt a>,<vt b> then for every well-typed binary operator and `tern`
                                              <name>=<model base>/<model fixA>/<model fixAB>|<language spec through declVT>
      un   <platform> <c|cpp> <t>         →  the unary operators and the casts to every type, same format
-     lit  <platform> <dec|oct|hex> <u:0|1> <#l> <value>  →  lit=<model>|<language or none> K:k6=..,k7=..
+     lit  <platform> <dec|oct|hex> <u:0|1> <#l> <value>  →  lit=<model>|<language or none> K:k6=..
      plat <platform>                     →  the generated platform record (sizes, char sign, shape) -/
 namespace Driver.C09
 
@@ -73,7 +73,7 @@ def step (line : String) : String :=
       let sp := match litSpec imax lmax llmax base us longs value with
         | some t => (asVT t).str
         | none => "none"
-      s!"lit={c.str}|{sp} K:k6={boolStr (hexWindow imax lmax base longs value)},k7={boolStr (octalAsDecimal imax lmax base us longs value)}"
+      s!"lit={c.str}|{sp} K:k6={boolStr (octalAsDecimal imax lmax base us longs value)}"
     | _, _, _, _ => "bad-op"
   | ["plat", p] =>
     match findPlat p with
